@@ -132,6 +132,18 @@ func init() {
 	specBuiltins["dn"] = func(ev *evaluator, args []*Val) *Val {
 		return &Val{T: calDn(args[0].T, args[1].T, args[2].T), Typ: intT}
 	}
+	// dby(y): days before 1 January of year y; yearof(n): the year that contains day number n
+	specBuiltins["dby"] = func(ev *evaluator, args []*Val) *Val {
+		return &Val{T: calDby(args[0].T), Typ: intT}
+	}
+	specBuiltins["yearof"] = func(ev *evaluator, args []*Val) *Val {
+		n := args[0].T
+		y := UF("cal.year_of", SInt, n)
+		if !hasFreeBound(n) {
+			ev.x.ctx.assumeGlobal(ev.st, And(Le(calDby(y), n), Lt(n, calDby(Add(y, IntLit(1))))))
+		}
+		return &Val{T: y, Typ: intT}
+	}
 	specBuiltins["dim"] = func(ev *evaluator, args []*Val) *Val {
 		return &Val{T: calDim(args[0].T, args[1].T), Typ: intT}
 	}
